@@ -332,6 +332,16 @@ pub struct Query {
     /// token stream: Ok((lo, kind, idx-with-flags, hi)) or Err(message)
     pub toks: Vec<Result<(usize, u32, u32, usize), String>>,
     pub text: String,
+    pub multi: Option<Multi>,
+}
+
+/// C27: several inputs parsed through ONE shared parser value, sequentially
+/// and from several threads at once.
+pub struct Multi {
+    pub threads: usize,
+    pub inputs: Vec<Query>,
+    /// per thread: the input indices it parses, in order
+    pub schedule: Vec<Vec<usize>>,
 }
 
 pub fn parse_query(line: &str) -> Option<Query> {
@@ -345,8 +355,27 @@ pub fn parse_query(line: &str) -> Option<Query> {
         budget: f[3].parse().ok()?,
         toks: vec![],
         text: String::new(),
+        multi: None,
     };
     match f[2] {
+        "M" => {
+            // threads \x1e inputs (\x1d separated, each "T<toks>" or "S<text>") \x1e schedule (a,b,c|d,e)
+            let parts: Vec<&str> = f[4].split('\x1e').collect();
+            if parts.len() != 3 {
+                return None;
+            }
+            let mut inputs = vec![];
+            for inp in parts[1].split('\x1d') {
+                let (kind, body) = inp.split_at(1.min(inp.len()));
+                let line = format!("{}\t{}\t{}\t{}\t{}", f[0], f[1], kind, f[3], body);
+                inputs.push(parse_query(&line)?);
+            }
+            let schedule: Vec<Vec<usize>> = parts[2]
+                .split('|')
+                .map(|t| t.split(',').filter_map(|x| x.parse().ok()).collect())
+                .collect();
+            q.multi = Some(Multi { threads: parts[0].parse().ok()?, inputs, schedule });
+        }
         "T" => {
             for t in f[4].split(';').filter(|s| !s.is_empty()) {
                 if let Some(m) = t.strip_prefix('E') {
@@ -416,26 +445,100 @@ pub fn finish<V: R, L: R, T: R, E: R>(
     }
 }
 
+pub fn assert_send_sync<T: Send + Sync>(_: &T) {}
+
+/// Run the schedule of `m` against one shared parser value: first every
+/// input alone on a fresh parser (reference), then a sequential pass over the
+/// shared value, then all threads at once behind a barrier.
+pub fn multi<P: Sync>(m: &Multi, shared: &P, one: &(dyn Fn(&P, &Query) -> String + Sync), fresh: &dyn Fn() -> P) -> String {
+    let reference: Vec<String> = m.inputs.iter().map(|q| one(&fresh(), q)).collect();
+    let mut compared = 0usize;
+    // (a) sequential reuse of the shared value, in schedule order
+    for (ti, seq) in m.schedule.iter().enumerate() {
+        for (step, &i) in seq.iter().enumerate() {
+            if i >= m.inputs.len() {
+                continue;
+            }
+            let got = one(shared, &m.inputs[i]);
+            compared += 1;
+            if got != reference[i] {
+                return format!("MULTI_MISMATCH\tsequential\t{}\t{}\t{}\t{}\t{}", ti, step, i, esc(&reference[i]), esc(&got));
+            }
+        }
+    }
+    // (b) concurrent use
+    let barrier = std::sync::Barrier::new(m.schedule.len().max(1));
+    let bad: std::sync::Mutex<Option<String>> = std::sync::Mutex::new(None);
+    let total = std::sync::atomic::AtomicUsize::new(0);
+    std::thread::scope(|sc| {
+        for (ti, seq) in m.schedule.iter().enumerate() {
+            let (barrier, bad, total, reference) = (&barrier, &bad, &total, &reference);
+            sc.spawn(move || {
+                barrier.wait();
+                for (step, &i) in seq.iter().enumerate() {
+                    if i >= m.inputs.len() {
+                        continue;
+                    }
+                    let got = one(shared, &m.inputs[i]);
+                    total.fetch_add(1, std::sync::atomic::Ordering::Relaxed);
+                    if got != reference[i] {
+                        let mut b = bad.lock().unwrap();
+                        if b.is_none() {
+                            *b = Some(format!("MULTI_MISMATCH\tconcurrent\t{}\t{}\t{}\t{}\t{}", ti, step, i, esc(&reference[i]), esc(&got)));
+                        }
+                        return;
+                    }
+                }
+            });
+        }
+    });
+    if let Some(b) = bad.into_inner().unwrap() {
+        return b;
+    }
+    compared += total.load(std::sync::atomic::Ordering::Relaxed);
+    format!("MULTI_OK\t{}", compared)
+}
+
 /// extern-lexer parser call
 macro_rules! run_toks {
     ($q:expr, $parser:path, $loc:ty) => {{
         let q: &$crate::rt::Query = $q;
-        let cx = $crate::rt::Cx::new(q.budget);
-        let pulls = std::cell::Cell::new(0u32);
-        let res = std::panic::catch_unwind(std::panic::AssertUnwindSafe(|| {
-            let it = $crate::rt::TokIter::<$loc>::new(q, &pulls, &cx);
-            <$parser>::new().parse(&cx, it)
-        }));
-        $crate::rt::finish(res, &cx, pulls.get())
+        let one = |p: &$parser, q: &$crate::rt::Query| -> String {
+            let cx = $crate::rt::Cx::new(q.budget);
+            let pulls = std::cell::Cell::new(0u32);
+            let res = std::panic::catch_unwind(std::panic::AssertUnwindSafe(|| {
+                let it = $crate::rt::TokIter::<$loc>::new(q, &pulls, &cx);
+                p.parse(&cx, it)
+            }));
+            $crate::rt::finish(res, &cx, pulls.get())
+        };
+        match &q.multi {
+            Some(m) => {
+                let shared = <$parser>::new();
+                $crate::rt::assert_send_sync(&shared);
+                $crate::rt::multi(m, &shared, &one, &|| <$parser>::new())
+            }
+            None => one(&<$parser>::new(), q),
+        }
     }};
 }
 /// built-in-lexer parser call
 macro_rules! run_str {
     ($q:expr, $parser:path) => {{
         let q: &$crate::rt::Query = $q;
-        let cx = $crate::rt::Cx::new(q.budget);
-        let res = std::panic::catch_unwind(std::panic::AssertUnwindSafe(|| <$parser>::new().parse(&cx, &q.text)));
-        $crate::rt::finish(res, &cx, 0)
+        let one = |p: &$parser, q: &$crate::rt::Query| -> String {
+            let cx = $crate::rt::Cx::new(q.budget);
+            let res = std::panic::catch_unwind(std::panic::AssertUnwindSafe(|| p.parse(&cx, &q.text)));
+            $crate::rt::finish(res, &cx, 0)
+        };
+        match &q.multi {
+            Some(m) => {
+                let shared = <$parser>::new();
+                $crate::rt::assert_send_sync(&shared);
+                $crate::rt::multi(m, &shared, &one, &|| <$parser>::new())
+            }
+            None => one(&<$parser>::new(), q),
+        }
     }};
 }
 pub(crate) use run_str;
